@@ -24,11 +24,7 @@ impl SDJWTDisclosure  {
 
         #[cfg(feature = "mock_salts")]
         let salt = {
-            value_str = value_str
-                .replace(":[", ": [")
-                .replace(',', ", ")
-                .replace("\":", "\": ")
-                .replace("\":  ", "\": ");
+            value_str = python_style_spacing(&value_str);
             generate_salt_mock()
         };
 
@@ -50,6 +46,35 @@ impl SDJWTDisclosure  {
             hash,
         }
     }
+}
+
+/// Adds the space that Python's `json.dumps` puts after every item and key separator.
+/// Only separators outside of string literals are touched, so claim names and values
+/// are left as they are.
+#[cfg(feature = "mock_salts")]
+fn python_style_spacing(compact_json: &str) -> String {
+    let mut result = String::with_capacity(compact_json.len() + 16);
+    let mut in_string = false;
+    let mut escaped = false;
+
+    for c in compact_json.chars() {
+        result.push(c);
+        if in_string {
+            if escaped {
+                escaped = false;
+            } else if c == '\\' {
+                escaped = true;
+            } else if c == '"' {
+                in_string = false;
+            }
+        } else if c == '"' {
+            in_string = true;
+        } else if c == ',' || c == ':' {
+            result.push(' ');
+        }
+    }
+
+    result
 }
 
 fn escape_unicode_chars(s: &str) -> String {
